@@ -1163,12 +1163,25 @@ let run_llpath (x : sexp) : string =
       "path=" ^ op_show (OutPath.ll_path d m) ^ " pn=" ^ (if OutPath.is_pn_module m then "true" else "false")
   | _ -> failwith "llpath"
 
+(* ==== C13 Loc: Location::combined_with and comparison_key ===================================== *)
+let run_loc (x : sexp) : string =
+  match x with
+  | L [A s1; A e1; A l1; A o1; A s2; A e2; A l2; A o2] ->
+      let mk s e l o = { Loc.l_start = n_of_string s; Loc.l_end = n_of_string e; Loc.l_line = n_of_string l; Loc.l_offset = n_of_string o } in
+      let (a, b) = (mk s1 e1 l1 o1, mk s2 e2 l2 o2) in
+      let show (c : Loc.loc) = String.concat " " (List.map string_of_n [c.Loc.l_start; c.Loc.l_end; c.Loc.l_line; c.Loc.l_offset]) in
+      let (ka, kb) = (Loc.comparison_key a, Loc.comparison_key b) in
+      let ord = if Loc.key_eqb ka kb then "eq" else if Loc.key_leb ka kb then "lt" else "gt" in
+      show (Loc.combined_with a b) ^ "\t" ^ show (Loc.combined_with b a) ^ "\t" ^ ord
+  | _ -> failwith "loc"
+
 let dispatch (stream : string) (x : sexp) : string =
   match stream with
   | "labels" -> run_labels x
   | "lintwalk" -> run_lintwalk x
   | "escape" -> run_escape x
   | "llpath" -> run_llpath x
+  | "loc" -> run_loc x
   | "memlower" -> run_memlower x
   | "vars" -> run_vars x
   | "exec" -> run_exec 20000 x
